@@ -177,6 +177,8 @@ def run_case(c):
             from cogent3.app.translate import translate_frames
 
             seq = m["om"].DNA.make_seq(c["s"], name="s0")
+            if c.get("rc"):
+                seq = seq.rc()
             return list(translate_frames(seq, gc=c["id"], allow_rc=c.get("allow_rc", True)))
         return observe(f)
     if k == "app_translate_seqs":
@@ -186,11 +188,34 @@ def run_case(c):
 
             data = {f"s{i}": s for i, s in enumerate(c["seqs"])}
             mk = m["cogent3"].make_aligned_seqs if c["aligned"] else m["cogent3"].make_unaligned_seqs
-            res = translate_seqs(moltype="dna", gc=c["id"], trim_terminal_stop=trim)(mk(data, moltype="dna"))
+            coll = mk(data, moltype="dna")
+            if c.get("rc"):
+                coll = coll.rc()
+            res = translate_seqs(moltype="dna", gc=c["id"], trim_terminal_stop=trim)(coll)
             if type(res).__name__ == "NotCompleted":
                 return Exc(E_ALPHA)
             d = res.to_dict()
             return [str(d[n]) for n in data]
+        return [observe(f, False), observe(f, True)]
+    if k == "best_frame":
+        def f():
+            from cogent3.app.translate import best_frame
+
+            seq = m["om"].DNA.make_seq(c["s"], name="s0")
+            return int(best_frame(seq, gc=c["id"], allow_rc=c["allow_rc"]))
+        return observe(f)
+    if k == "select_rc":
+        # select_translatable(allow_rc=True), frame chosen by best_frame
+        def f(trim):
+            from cogent3.app.translate import select_translatable
+
+            data = {f"s{i}": s for i, s in enumerate(c["seqs"])}
+            app = select_translatable(moltype="dna", gc=c["id"], allow_rc=True, trim_terminal_stop=trim)
+            res = app(m["cogent3"].make_unaligned_seqs(data, moltype="dna"))
+            if type(res).__name__ == "NotCompleted":
+                return []
+            d = res.to_dict()
+            return [[n, str(d[n])] for n in data if n in d]
         return [observe(f, False), observe(f, True)]
     if k == "app_select":
         # select_translatable with a given frame: the in-frame part of every sequence without internal stop
